@@ -181,7 +181,7 @@ func C15(tier string) int {
 	run.Set("rule", "every contract-respecting program of exactly L operations over the alphabet (every prefix is checked while it runs), on a stack of up to 3 nested cachekv wrappers over {MemDB adapter, IAVL store, prefix store} preloaded with a,b; each program is executed on the real stores and on an overlay-of-maps model; every return value, every iteration sequence, the parent content and the final view of every level are compared. evaluations = programs + schedules executed (all on the real stores); states = enabled program prefixes (no state merging: a state is the operation history reaching it) + cachemulti programs + distinct observed outcomes of the schedule exploration; transitions = operations executed under the oracle + scheduling points; distinct_nontrivial = sequential programs that observe (get/has/iterate) after mutating (set/delete), all distinct by construction, + distinct schedule outcomes")
 	run.Sample(map[string]interface{}{"parent": "memdb", "program": []string{"set(\"a\\x00\",\"x\")", "open[0](\"\",\"\",asc)", "del(\"a\")", "close[0]"}})
 	run.Assume("concurrent part: store/cachekv/store.go of the working tree is instrumented at check time (sync -> controlled scheduler shim, a yield before every statement of every Store method); every interleaving of 24 scenarios (2-3 goroutines x 1-2 operations on colliding keys, parent preloaded/empty) with at most the stated number of preemptions is executed; each history is checked for linearizability against a map (porcupine), parent untouched before Write, Write applying the final view, no deadlock; the first 40 schedules of every scenario are replayed and must observe the same history; data-race freedom is decided by a separate free-running -race pass (detection, not exploration)",
-		"usage contracts: only the innermost wrapper is used while it has a child; Write/CacheWrap/discard are not issued while one of the wrapper's iterators is open; buffers passed to Set are not reused by the caller (tm-db contract)",
+		"usage contracts: only the innermost wrapper is used while it has a child; Write/CacheWrap/discard are not issued while one of the wrapper's iterators is open; buffers passed to Set are not reused by the caller (tm-db contract); the parent is written from elsewhere only while the single wrapper's cache is empty (directly after its creation or its Write: a wrapper caches what it reads)",
 		"open iterators with interleaved writes are judged by a weak-consistency oracle (sorted, no duplicates, in domain, values the key had during the iterator's life, nothing skipped that was present throughout)",
 		"no state merging: cachekv's cache/unsortedCache/sortedCache are hidden state")
 	return run.Finish()
